@@ -304,6 +304,9 @@ func init() {
 						l = append(l, v)
 					}
 				}
+				if rng.Chance(20) {
+					l = append(l, "") // the empty string is a value like any other
+				}
 				if l == nil && rng.Chance(70) {
 					l = []string{}
 				}
@@ -314,7 +317,7 @@ func init() {
 				w := map[string]string{}
 				for _, d := range dims {
 					if rng.Chance(92) {
-						w[d] = sx.Pick(rng, []string{"a", "b", "c", "d"})
+						w[d] = sx.Pick(rng, []string{"a", "b", "c", "d", ""})
 					}
 				}
 				if rng.Chance(5) {
@@ -325,7 +328,7 @@ func init() {
 			p := map[string]string{}
 			for _, d := range dims {
 				if rng.Chance(95) {
-					p[d] = sx.Pick(rng, []string{"a", "b", "c", "d"})
+					p[d] = sx.Pick(rng, []string{"a", "b", "c", "d", ""})
 				}
 			}
 			if len(al) > 0 && rng.Chance(40) {
